@@ -88,6 +88,12 @@ FRAGMENT_HISTORY = [
      "first_reasons_outside": {"callee outside": 154, "same let re-declared in two match clauses": 141,
                                "call:user-fn-args": 37, "go-const-expr (operation on literals, not exact)": 25,
                                "if:type": 12, "float literal": 10, "match:literal-arms": 9}},
+    {"stage": "+ block-scoped declarations (scopedLocalsOK: a var is new in its own and the enclosing blocks, "
+              "instead of all declared names pairwise distinct)",
+     "inside": 5641, "inside_with_trait_objects_only": 313, "functions": 6160,
+     "first_reasons_outside": {"callee outside": 51, "call:user-fn-args": 37,
+                               "go-const-expr (operation on literals, not exact)": 30, "if:type": 12,
+                               "float literal": 10, "match:literal-arms": 10, "call:missing": 7}},
 ]
 
 
